@@ -311,6 +311,7 @@ def short_err(r):
     import re
     m = re.sub(r"[0-9]+", "#", str(m))
     m = re.sub(r"'[^']*'|\"[^\"]*\"|`[^`]*`", "..", m)
+    m = m.replace(":", " -").replace("|", "/")
     return "%s(%s)" % (kind, m[:60].strip())
 
 
@@ -540,13 +541,16 @@ class Blamer:
                     if node[0] in ("and", "or"):
                         cl = sorted(cl)
                     self._record(sigs, "%s:%s:[%s]:%s->%s" % (ctx, family(node), ",".join(cl), "|".join(adm), shown), node, j)
-            for c in failing + err_below:
+            by_value = [c for c in failing if not isinstance(self.ob.get(ctx, c), dict)]
+            by_error = [c for c in failing if isinstance(self.ob.get(ctx, c), dict)] + err_below
+            for c in by_value:
                 self._visit(ctx, c, j, taint, sigs)
-            if not wrong and not failing and not err_below:
-                # nothing at this level explains the failure above: look into operands whose own query hides a failure
-                if fails and not masked:
+            if not wrong and not by_value:
+                # nothing observable at this level explains the failure above: operands that cannot be observed
+                # (their own query errors), then operands whose own query hides a failure
+                if fails and not by_error and not masked:
                     raise vlib.ToolError("blame localisation is inconsistent at %s row %d" % (key(node), j + 1))
-                for c in masked:
+                for c in by_error or masked:
                     self._visit(ctx, c, j, taint, sigs)
             return
         if fails:
@@ -558,13 +562,14 @@ class Blamer:
         o = self.ob.get(ctx, node)
         exp = self.expected_of(node)
         expset = "".join(sorted(set(exp)))
-        if not has_column(node):
-            if "T" not in expset:
-                sig = "%s:constant:never_true->%s" % (ctx, o["err"])
-            else:
-                row = self.row_of(0)
-                sig = "%s:constant %s:[%s]:%s->%s" % (ctx, family(node), operand_classes(node, row) if not
-                                                     [c for c in children(node) if c[0] not in SCALAR] else "", expset, o["err"])
+        if "T" not in expset:
+            # a predicate that is never TRUE (the optimizer can fold it to FALSE / NULL) and fails instead of
+            # returning no row: one family whatever the operator
+            sig = "%s:never_true:F|N->%s" % (ctx, o["err"])
+        elif not has_column(node):
+            row = self.row_of(0)
+            sig = "%s:constant %s:[%s]:%s->%s" % (ctx, family(node), operand_classes(node, row) if not
+                                                 [c for c in children(node) if c[0] not in SCALAR] else "", expset, o["err"])
         else:
             sig = "%s:%s:%s->%s" % (ctx, family(node), expset, o["err"])
         d = sigs.setdefault(sig, {"node": render(node, self.ob.atoms), "key": key(node), "keys": set(), "observed": o.get("detail") or o["err"]})
